@@ -6,7 +6,7 @@ P=$1; PATCH=$2; TIER=${3:-quick}
 rsync -a --delete --exclude replays --exclude '.git' /verif/ /tmp/coord-verif/
 rsync -a --delete --exclude '.git' /repo/ /tmp/coord-repo/
 cd /tmp/coord-repo && git apply "$PATCH" 2>/dev/null || (cd /tmp/coord-repo && patch -p1 -s < "$PATCH") || { echo "PATCH FAILED"; exit 3; }
-cd /tmp/coord-verif && rm -rf replays && RPYC_REPO=/tmp/coord-repo ./check $P $TIER > /tmp/try_seed.log 2>&1
+cd /tmp/coord-verif && rm -rf replays && RPYC_REPO=/tmp/coord-repo timeout -k 10 1500 ./check $P $TIER > /tmp/try_seed.log 2>&1
 echo "exit=$?"; grep -E "VIOLATION|KNOWN|broken:|done in" /tmp/try_seed.log | cut -c1-600
 for f in /tmp/coord-verif/replays/$P-*.json; do case "$f" in *disagreements*) ;; *) [ -f "$f" ] && python3 -c "
 import json,sys; d=json.load(open('$f')); print('REPLAY', '$f'.split('/')[-1], '| kind:', d.get('kind'), '| case:', json.dumps(d.get('case'))[:500], '| observed:', str(d.get('observed'))[:400])";; esac; done
